@@ -49,6 +49,23 @@ def filter_pool(r):
     return r.sample(pool, r.randint(3, 6))
 
 
+def filter_type(f):
+    pt = (f.get("prop") or {}).get("test")
+    if f.get("time"):
+        return "comp-time-range"
+    if isinstance(pt, dict) and "time" in pt:
+        return "prop-time-range"
+    if isinstance(pt, dict) and "text" in pt:
+        return "text-match-negated" if pt.get("negate") else "text-match"
+    if pt == "absent":
+        return "prop-is-not-defined"
+    if pt == "present":
+        return "prop-present"
+    if f.get("comp_absent"):
+        return "comp-is-not-defined"
+    return "comp"
+
+
 def make_config(seed, tier):
     r = random.Random(H("idxcfg", seed))
     return {
@@ -100,6 +117,7 @@ class IndexRun:
         self.members = {}
         self.fresh = 0
         self.writes_since_index = 0
+        self.filter_uses = {}  # since the last restart / eviction
         self.nontrivial = 0
         self.digest = hashlib.sha256()
         self.samples = []
@@ -171,6 +189,20 @@ class IndexRun:
             if not self.members and k >= 0.68:
                 pass
             else:
+                if k < 0.07 and len(self.members) >= 2:
+                    # a query that is still being evaluated (its lazily produced result partly
+                    # consumed, as in a threaded deployment) while other queries are answered
+                    a = r.choice(self.pool)
+                    # B: the filter used least so far (its keys are the likeliest to be new to the
+                    # index), asked just often enough to push them over the threshold, or at random
+                    uses = self.filter_uses
+                    others = [f for f in self.pool if f != a] or self.pool
+                    least = min(uses.get(repr(f), 0) for f in others)
+                    b = r.choice([f for f in others if uses.get(repr(f), 0) == least])
+                    thr = self.cfg["index_threshold"]
+                    thr = 5 if thr is None else thr
+                    reps = max(1, thr + 1 - least) if r.random() < 0.6 else r.choice([1, 2, 3, 6])
+                    return {"op": "query_overlap", "a": a, "b": b, "take": r.randint(1, 3), "reps": min(reps, 8)}
                 return {"op": "query", "filter": r.choice(self.pool)}
         if k < 0.8 or not self.members:
             self.fresh += 0
@@ -244,14 +276,18 @@ class IndexRun:
             self.digest.update(("del %s %s\n" % (op["name"], r.status if r else None)).encode())
         elif k == "restart":
             w.restart()
+            self.filter_uses = {}
             self.twin = self.make_twin()
             self.count("fault.restart")
         elif k == "evict":
             w.evict()
+            self.filter_uses = {}
             self.twin = self.make_twin()
             self.count("fault.cache_evict")
         elif k == "query":
             self.query(op)
+        elif k == "query_overlap":
+            self.query_overlap(op)
 
     def hrefs_of(self, status, body, base):
         if status != 207:
@@ -265,10 +301,64 @@ class IndexRun:
             out.add(urllib.parse.unquote(dav.href_path(ms.href or "", base)).rsplit("/", 1)[-1])
         return out
 
+    def query_overlap(self, op):
+        """Query A is started on the server's own collection object and only `take` of its results
+        are drawn; `reps` complete B queries are then served; A is drawn to the end.  No write
+        happens meanwhile, so A's result and every later answer must equal the cold evaluation."""
+        from xandikos.caldav import get_calendar_timezone, parse_filter
+
+        w = self.world
+        for _ in range(2):
+            self.query({"op": "query", "filter": op["a"]})
+        try:
+            res = w.srv.backend.get_resource(CAL)
+        except Exception:  # noqa: BLE001
+            res = None
+        if res is None or not hasattr(res, "calendar_query"):
+            return
+        tz = get_calendar_timezone(res)
+        fel = dav.cal_filter(op["a"])
+
+        def fn(cls):
+            return parse_filter(fel, cls(tz))
+
+        names = []
+        failed = None
+        try:
+            it = iter(res.calendar_query(fn))
+            for _ in range(op["take"]):
+                try:
+                    names.append(next(it)[0])
+                except StopIteration:
+                    break
+        except Exception as e:  # noqa: BLE001 - e.g. a filter the server refuses
+            failed = e
+        for _ in range(op["reps"]):
+            self.query({"op": "query", "filter": op["b"]})
+        if failed is None:
+            try:
+                for name, _r in it:
+                    names.append(name)
+            except Exception as e:  # noqa: BLE001
+                failed = e
+        self.count("fault.query_suspended_mid_result")
+        body = dav.calquery_body(fel)
+        st, tb = wsgi_call(self.twin, "REPORT", CAL, [dav.XML_CT, ("Depth", "1")], body)
+        cold = self.hrefs_of(st, tb, CAL)
+        if failed is None and cold is not None and set(names) != cold:
+            self.violations.append({"prop": "C10", "oracle": "C10.result-differs-from-cold-evaluation",
+                                    "sig": {"oracle": "C10.result-differs-from-cold-evaluation", "filter": filter_type(op["a"]), "index_used": True, "suspended": True,
+                                            "multi_component_object": self.multi_component(set(names) ^ cold)},
+                                    "step": len(self.ops) - 1,
+                                    "detail": "filter %s drawn %d + rest around %d queries %s: got %s, cold evaluation %s" % (op["a"], op["take"], op["reps"], op["b"], sorted(names), sorted(cold))})
+        for f in (op["b"], op["a"], op["b"]):
+            self.query({"op": "query", "filter": f})
+
     def query(self, op):
         w = self.world
         body = dav.calquery_body(dav.cal_filter(op["filter"]))
         self.index_used = False
+        self.filter_uses[repr(op["filter"])] = self.filter_uses.get(repr(op["filter"]), 0) + 1
         r = w.req("REPORT", CAL, [dav.XML_CT, ("Depth", "1")], body)
         used = self.index_used
         st, tb = wsgi_call(self.twin, "REPORT", CAL, [dav.XML_CT, ("Depth", "1")], body)
@@ -283,22 +373,7 @@ class IndexRun:
                 self.nontrivial += 1
         if len(self.samples) < 1 and used:
             self.samples.append({"config": {k: self.cfg[k] for k in ("frontend", "index_threshold", "paranoid")}, "filter": op["filter"], "members": sorted(self.members), "result": sorted(a) if a else a, "twin": sorted(b) if b else b})
-        f = op["filter"]
-        pt = (f.get("prop") or {}).get("test")
-        if f.get("time"):
-            ft = "comp-time-range"
-        elif isinstance(pt, dict) and "time" in pt:
-            ft = "prop-time-range"
-        elif isinstance(pt, dict) and "text" in pt:
-            ft = "text-match-negated" if pt.get("negate") else "text-match"
-        elif pt == "absent":
-            ft = "prop-is-not-defined"
-        elif pt == "present":
-            ft = "prop-present"
-        elif f.get("comp_absent"):
-            ft = "comp-is-not-defined"
-        else:
-            ft = "comp"
+        ft = filter_type(op["filter"])
         if (r.status if r else None) != st:
             if st == 207 or (r and r.status == 207):
                 anymulti = any(self.multi_component({n}) for n in sorted(self.members))
